@@ -67,3 +67,48 @@ func init() {
 		}
 	}
 }
+
+func init() {
+	// C01 decides enforcement with ALLOW as an uninterpreted predicate (db package); what ALLOW means for a rule with several
+	// patterns is decided on the real acl code: the acl leg of C01.
+	c01 := findProp("C01")
+	c07 := findProp("C07")
+	if c01 == nil || c07 == nil {
+		return
+	}
+	c01.Pkgs = append(c01.Pkgs, "acl")
+	for _, h := range c07.Harnesses {
+		if h.Name == "verifHarnessC07RuleReal" || h.Name == "verifHarnessC07Rules" {
+			hh := *h
+			hh.Desc = "acl leg of enforcement: " + h.Desc
+			c01.Harnesses = append(c01.Harnesses, &hh)
+		}
+	}
+}
+
+func init() {
+	// C14 names the HTTP handlers as well: they must be stateless apart from the database and counters.
+	c14 := findProp("C14")
+	if c14 == nil {
+		return
+	}
+	c14.Pkgs = append(c14.Pkgs, "server")
+	c14.Harnesses = append(c14.Harnesses, &HarnessSpec{Name: "verifHarnessC14HandlersStateless", Pkg: "server", Stubs: serverStubs, Params: map[string]int{},
+		ExpectReach: []string{"end"}, NoNative: "net/http, WhoIs and the database are models in this harness",
+		Desc: "two get requests of different clients overlap at the HTTP layer (the second is served while the first response is being written): each client receives its own version and bytes"})
+	c14.Bounds["HTTP layer"] = "two overlapping get requests, the second served entirely inside the first one's response write"
+}
+
+func init() {
+	// C19: "declared secrets ... are never dropped", and drops happen at a poll only: construction from a cache must keep every
+	// valid cached entry's value and stamp whatever the expiry configuration (the construction harness has a symbolic expiry age,
+	// clock and access stamps).
+	c19 := findProp("C19")
+	if c19 == nil {
+		return
+	}
+	h := ch("verifHarnessC10NewStoreDoc", map[string]int{"names": 2, "fails": 1, "entrykinds": 2}, map[string]int{"names": 2, "fails": 2, "entrykinds": 3},
+		[]string{"end-ok", "end-from-cache"}, "construction from a cache never drops a declared secret: cached value and access stamp are used as they are, for every expiry age, clock and stamp")
+	h.DeadOK = map[string]string{"undecodable-cache-contributes-no-names": "obligation of the shared driver for arbitrary-bytes caches (C10/C13)", "undecodable-cache-ignored-as-a-whole": "obligation of the shared driver for arbitrary-bytes caches (C10/C13)"}
+	c19.Harnesses = append(c19.Harnesses, h)
+}
